@@ -1,8 +1,21 @@
 """Configuration of ./check C01 (see lib/registry.py for the fields)."""
-DEBUG = dict(
-    claim="debug: end-to-end rig and spec predicates of C01; theorems pending (Model/Sys.v)",
-    props="Props/C08.v",
-    theorems=[],
+CFG = dict(
+    claim="PARTIAL. Model: coq/Model/Sys.v = the product of the client model (Model/Client.v) and the server-connection model "
+          "(Model/Server.v) joined by two reliable FIFO wires; all label sequences (any number of calls and streams, any interleaving "
+          "of user actions, internal rules, handler steps and wire transfers), unary handlers returning f(request) for an arbitrary f. "
+          "Proved in coq/Props/C01.v: C01_projection_client / C01_projection_server (every system run is a run of each component model, "
+          "so the component invariants of work packages cl and sv hold inside the system), C01_wire_c2s / C01_wire_s2c (what a side has "
+          "read is a prefix of what the other wrote: nothing lost, duplicated, reordered, altered or fabricated in transit), "
+          "C01_request_exact (a unary call's only write is its own id + payload) and C01_pairing_partial (every successful unary call "
+          "returned f(its own payload)) - the latter with ONE explicit premise about the server model alone, "
+          "Proofs/SysC01.v server_fact_reply_origin (every body-carrying frame the server writes is the reply of a handler whose "
+          "request frame, with the same id, was read from the transport), which is stated but not yet proved. Not proved: exactly-once "
+          "/ no-fabrication / completeness clauses at handler level. The tie: the boolean predicates spec_c01 of coq/Check/C01c.v "
+          "(pairing, exactly one result, handler exactly once with the caller's request, reply as produced, wire ids distinct and "
+          "echoed) are evaluated on every history recorded from the REAL client connection + server; the component models are tied "
+          "lock-step to the code by ./check CL and ./check SV (not by this check).",
+    props="Props/C01.v",
+    theorems=["C01_projection_client", "C01_projection_server", "C01_wire_c2s", "C01_wire_s2c", "C01_request_exact", "C01_pairing_partial"],
     imports=["Check.SysC", "Check.C01c"],
     case_type="c01case",
     find_bad_from="find_bad_from",
@@ -15,7 +28,18 @@ DEBUG = dict(
                  "6": "the caller's result is not the reply its handler produced",
                  "7": "wire: request ids not pairwise distinct, a request envelope whose body is not a caller's message, or not exactly one "
                       "response per request id carrying f(body of that request) without error status or reset"},
-    rule="real goat.ClientConn - in-memory FIFO wires - real goat.Server (direct, through the real Proxy, through the real Demux; serialising "
-         "and by-reference wires) inside synctest bubbles",
-    assumptions=[],
+    rule="real goat.ClientConn - in-memory FIFO wires - real goat.Server inside synctest bubbles; reply = fixed mixing function of the request "
+         "bytes; payload sizes {0,1,17,1023,1024,4096,65536} of seeded random bytes. (A) lock-step, EVERY interleaving of the 2k wire "
+         "deliveries and k handler releases for k <= 3 callers (thorough 4) on serialising and by-reference wires, k <= 2 (thorough 3) "
+         "through the real Proxy and the real Demux; (B) seeded random lock-step schedules, 1..8 callers x 1..3 calls, three topologies; "
+         "(C) free-running (no gating, seeded yields at the verif hooks): 64 callers x 200 calls at GOMAXPROCS 1/4/16, 8 x 100 through "
+         "Proxy and Demux, and 12 (thorough 60) runs of 25 rounds in which 64 goroutines leave the fail-fast check of CallUnaryMethod at "
+         "the same instant (spin barrier at the mux.checked hook); every history judged by spec_c01",
+    assumptions=["payload bytes are identified by a 59-bit hash taken at the moment of each observation (a collision could hide, never "
+                 "create, a difference)",
+                 "handler invocation and call are linked by a request-metadata tag (sy-c), i.e. through the same envelope",
+                 "the lock-step tie of the two component models to the code is ./check CL and ./check SV; this check ties the "
+                 "end-to-end behaviour by the spec predicates only (no agrees through Sys: exploring all internal orders of the "
+                 "product was not tractable in the time available)",
+                 "protobuf marshal/unmarshal of payloads is the library (A-codec)"],
 )
